@@ -145,10 +145,12 @@ func (w *W) callValue(s *State, fv Value, args []Value, resultTo ssa.Value, isDe
 		return true
 	}
 	if h, ok := intrinsics[name]; ok {
-		w.e.noteModel("intrinsic:" + name)
 		r := h(w, s, args)
-		setResult(s, resultTo, r)
-		return true
+		if r != nil { // nil = "not applicable to these arguments": run the real body
+			w.e.noteModel("intrinsic:" + name)
+			setResult(s, resultTo, r)
+			return true
+		}
 	}
 	if f.Fn.Blocks == nil {
 		panic(execErr{"no body / no intrinsic: " + f.Fn.String()})
